@@ -247,7 +247,7 @@ def gen_cases(kind, n, salt):
             if i % 4 == 3:
                 a, b = [a, word(2, 6)], [b, word(2, 6)]
             cases.append(("json", a, b, r.choice(docs.ALL_OPTS[:3])))
-    elif kind in ("csv", "pyobj", "plist", "loaded", "crossplist", "mixedopts", "cli"):
+    elif kind in ("csv", "pyobj", "plist", "loaded", "crossplist", "mixedopts", "cli", "pickled"):
         for i in range(n):
             cases.append((kind, i, None, r.choice(docs.ALL_OPTS)))
     elif kind == "huge":
@@ -365,6 +365,31 @@ def build_pair(case, salt):
             for k in r.sample(sorted(db, key=str), min(len(db), r.randint(1, 2))):
                 db[str(k) + r.choice(("x", "_new", "2"))] = db.pop(k)
         return cli_trees(da, db, opts, r)
+    if kind == "pickled":
+        # trees of the pickle file type (a decompiled module: assignments, calls, subscripts - data-class nodes with slots):
+        # plain data, one slot changed while the slots before it stay as they are
+        import pickle
+        import tempfile
+        import graphtage
+        from .common import scratch
+        r = rng("pickled", salt, a)
+        da = docs.random_doc(r, depth=r.choice((1, 2, 3)))
+        while not isinstance(da, (dict, list)) or not da:
+            da = docs.random_doc(r, depth=r.choice((1, 2, 3)))
+        db = docs.mutate(da, r)
+        if a % 3 == 0:
+            import collections
+            da, db = collections.OrderedDict(x=da, y=[1, 2, 3, 4, 5, 6]), collections.OrderedDict(x=da, y=[1, 9, 3, 4, 7, 8, 6])
+        trees = []
+        for d in (da, db):
+            fd, path = tempfile.mkstemp(suffix=".pickle", dir=scratch())
+            with os.fdopen(fd, "wb") as f:
+                f.write(pickle.dumps(d, protocol=r.choice((2, 4))))
+            try:
+                trees.append(graphtage.FILETYPES_BY_TYPENAME["pickle"].build_tree(path, docs.build_options(opts)))
+            finally:
+                os.unlink(path)
+        return trees[0], trees[1]
     if kind == "mixedkeys":
         r = rng("mixedkeys", salt, a)
         da, db = docs.random_mixedkeys_docs(r)
@@ -461,10 +486,26 @@ def build_pair(case, salt):
                 if (k, v) in seen:
                     continue
                 seen.add((k, v))
-                val = graphtage.IntegerNode(v) if isinstance(v, int) else graphtage.StringNode(v)
-                pairs.append(graphtage.KeyValuePairNode(graphtage.StringNode(k), val, allow_key_edits=True))
-            return graphtage.DictNode(sorted(pairs), auto_match_keys=(opts["strategy"] == "auto"))
-        return dnode(), dnode()
+                pairs.append((k, v))
+            return pairs
+
+        def mk(pairs):
+            nodes = [graphtage.KeyValuePairNode(graphtage.StringNode(k),
+                                                graphtage.IntegerNode(v) if isinstance(v, int) else graphtage.StringNode(v),
+                                                allow_key_edits=True) for k, v in pairs]
+            return graphtage.DictNode(sorted(nodes), auto_match_keys=(opts["strategy"] == "auto"))
+        pa, pb = dnode(), dnode()
+        if a % 4 == 3:
+            # the SAME pair more often in one mapping than in the other (and nothing else different): a surplus copy is an
+            # insertion / a removal like any other
+            pb = list(pa)
+            if r.random() < 0.6:
+                pb.append(r.choice(pa))
+            else:
+                pa = pa + [r.choice(pa)]
+            if r.random() < 0.3:
+                return graphtage.ListNode([mk(pa)]), graphtage.ListNode([mk(pb)])
+        return mk(pa), mk(pb)
     if kind == "msetdup":
         r = rng("msetdup", salt, a)
         return docs.random_mset_tree(r, dup=True), docs.random_mset_tree(r, dup=True)
